@@ -35,3 +35,53 @@ Proof.
   exists f4_line, m, t, v. split; [exact H1|split; [exact H2|exact f4_repaired]].
 Qed.
 Print Assumptions target_bytes_refuted_in_pinned_code.
+
+(** ---- stream level (serve_stream = the whole connection delivered in one piece; by C18's theorems
+    every other way of delivering it gives the same requests) ---- *)
+From TwLib Require Import HttpRender.
+From C19 Require Import ReqLine Pipeline.
+
+(** _parseRequestLine (repaired) accepts exactly the RFC 9112 request lines: method token, SP, a
+    non-empty target of visible ASCII, SP, HTTP/1.0 or HTTP/1.1 -- nothing else *)
+Theorem request_line_accepts_exactly_rfc : forall line m t v : bytes,
+  parse_request_line true line = Some (m, t, v) <->
+  (line = m ++ SP :: t ++ SP :: v /\ rfc_request_line_fields m t v = true).
+Proof. exact request_line_exact. Qed.
+Print Assumptions request_line_accepts_exactly_rfc.
+
+(** framing agrees with the RFC on well-formed streams: any pipeline of requests written as RFC 9112
+    prescribes (canonical field lines with any RFC field values, body framed by Content-Length or by
+    the chunked coding with any extensions / trailers, or absent; within the server's header limits),
+    followed by anything, is parsed into exactly those requests with exactly those bodies, and parsing
+    resumes exactly at the first byte after the last body *)
+Theorem framing_agrees_with_rfc : forall (qs : list wreq) (tail : bytes),
+  Forall wf_wreq qs -> forallb keeps_alive qs = true ->
+  serve_stream true (flat_map render qs ++ tail) =
+  let '(rs, e) := serve_stream true tail in (map parsed qs ++ rs, e).
+Proof. exact pipeline. Qed.
+Print Assumptions framing_agrees_with_rfc.
+
+(** ... so whatever the bodies contain (e.g. the bytes of a request), the application sees the written
+    requests and nothing else *)
+Theorem no_body_byte_parsed_as_request : forall (qs : list wreq),
+  Forall wf_wreq qs -> forallb keeps_alive qs = true ->
+  serve_stream true (flat_map render qs) = (map parsed qs, EWait).
+Proof. exact pipeline_complete. Qed.
+Print Assumptions no_body_byte_parsed_as_request.
+
+(** after a request that ends the connection (Connection: close, HTTP/1.0) nothing is processed *)
+Theorem nothing_processed_after_last_request : forall (qs : list wreq) (q : wreq) (junk : bytes),
+  Forall wf_wreq qs -> forallb keeps_alive qs = true -> wf_wreq q -> keeps_alive q = false ->
+  serve_stream true (flat_map render qs ++ render q ++ junk) = (map parsed qs ++ [parsed q], EClosed).
+Proof. exact pipeline_close. Qed.
+Print Assumptions nothing_processed_after_last_request.
+
+(** a request line that is not an RFC request line is answered with 400 and nothing after it is
+    processed, the requests before it having been delivered *)
+Theorem invalid_request_line_is_400_and_stops : forall (qs : list wreq) (l junk : bytes),
+  Forall wf_wreq qs -> forallb keeps_alive qs = true ->
+  find_crlf l = None -> l <> [] -> (N.of_nat (length l) <= total_headers_size)%N ->
+  (forall m t v, l = request_line m t v -> rfc_request_line_fields m t v = false) ->
+  serve_stream true (flat_map render qs ++ l ++ CRLFo ++ junk) = (map parsed qs, EBad).
+Proof. exact bad_request_line. Qed.
+Print Assumptions invalid_request_line_is_400_and_stops.
